@@ -16,12 +16,15 @@ RULE = ("(1) uniform-regime files in each of 48 dialect points (four key/value s
         "dialect at DataIterator / FeatureDB / reopened FeatureDB, per-line helpers.infer_dialect == exhibited dialect; "
         "(2) routing files (gene/mRNA/exon with Parent, or GTF exons) in every dialect point; (3) mixtures: files whose "
         "lines carry two values of one dialect key with generated attribute-count weights incl. exact ties in both orders "
-        "-> reference weighted vote (skipped when the checklines and checklines+1 window conventions disagree); "
+        "-> reference weighted vote (skipped when the checklines and checklines+1 window conventions disagree); (3a) the same mixtures "
+        "followed by further feature lines beyond the window and with directive / comment / blank lines in front of and between the "
+        "feature lines (the window counts feature lines only), file and from_string; "
         "(4) supplied dialects (trailing/repeated/order variations) used verbatim for reporting and printing; "
         "non-trivial = >= 3 lines (1,4) / both values present in the window (3); distinct by file text + checklines")
 REQUIRED = ["library default dialect compared after a case", "sources sharing a dialect dictionary used as data: dialects compared afterwards",
             "repeated keys whose earlier occurrences are empty: dialects compared", "dialect compared after an update written in another spelling", "uniform files with a bare ';' inside quoted values", "uniform files: dialect compared", "infer_dialect strings compared", "routing observed: gtf", "routing observed: gff",
-            "mixtures decided by vote", "mixtures with exact tie", "supplied dialects compared", "re-ordered feature lists compared",
+            "mixtures decided by vote", "mixtures with exact tie",
+            "mixtures with non-feature lines before/between the inspected features", "mixtures with non-feature lines: feature lines beyond the window present", "supplied dialects compared", "re-ordered feature lists compared",
             "supplied format decides the import semantics (iterator data)"]
 ASSUMPTIONS = [
     "per-line exhibited dialect as defined by gvmon/models/dialect.observed (a feature a line cannot exhibit votes for the default)",
@@ -429,7 +432,16 @@ def mixture(ctx, case):
         ctx.skip("mixture: the two window conventions vote differently")
         return
     base = {"seqid": "chr1", "source": "s", "featuretype": "region", "start": "1", "end": "9", "score": ".", "strand": "+", "frame": "."}
-    text = "\n".join(M.render_line(dict(base, attrs=attrs, extra=[]), D) for D, attrs in lines) + "\n"
+    rendered = [M.render_line(dict(base, attrs=attrs, extra=[]), D) for D, attrs in lines]
+    gaps = case.get("gaps")        # gaps[i]: non-feature lines (directive / comment / blank) in front of feature line i
+    if gaps:
+        phys = []
+        for i, ln in enumerate(rendered):
+            phys.extend(gaps[i])
+            phys.append(ln)
+        phys.extend(gaps[len(rendered)])
+        rendered = phys
+    text = "\n".join(rendered) + "\n"
     src = write(ctx, text)
     try:
         try:
@@ -438,6 +450,21 @@ def mixture(ctx, case):
             ctx.violation(case, {"why": "DataIterator raised %r on a mixed-dialect file" % (ex,), "text": text})
             return
         ctx.mon("mixtures decided by vote")
+        if gaps:
+            # the window counts FEATURE lines: directives, comments and blank lines neither vote nor use up the window
+            ctx.mon("mixtures with non-feature lines before/between the inspected features")
+            if len(lines) > ck + 1:
+                ctx.mon("mixtures with non-feature lines: feature lines beyond the window present")
+            try:
+                its = DataIterator(text, checklines=ck, from_string=True)
+            except Exception as ex:
+                ctx.violation(case, {"why": "DataIterator(from_string) raised %r on a mixed-dialect text" % (ex,), "text": text})
+                return
+            bad = diff_dialect(its.dialect, v2)
+            if bad:
+                ctx.violation(case, {"why": "mixture with non-feature lines (from_string) not resolved by the weighted majority over the inspected feature lines",
+                                     "diff(got,expected)": bad, "text": text, "key": case.get("key"), "checklines": ck})
+                return
         if case.get("tie"):
             ctx.mon("mixtures with exact tie")
         bad = diff_dialect(it.dialect, v2)
@@ -564,6 +591,38 @@ def mix_case(rng):
     return {"kind": "mixture", "key": key, "tie": tie, "lines": lines, "checklines": max(0, ck)}
 
 
+NONFEATURE = ["##gff-version 3", "##species x", "##sequence-region chr1 1 1000", "# a comment; with=chars\tand tabs", "#", "#!processor p", ""]
+
+
+def _mk_line(D, nattr):
+    attrs = []
+    for i, k in enumerate(["ID", "Name", "Note", "tag", "Alias", "Dbxref", "k1", "k2"][:nattr]):
+        attrs.append([k, ["v%d" % i] if i != 1 else ["m1", "m2"]])
+    return (D, attrs)
+
+
+def mix_gaps_case(rng):
+    """A mixture whose window is shorter than the file (further feature lines, in one of the spellings, follow it), with
+    directive / comment / blank lines in front of and between the feature lines: only feature lines count for the window."""
+    case = mix_case(rng)
+    lines = list(case["lines"])
+    n_in = len(lines)
+    # the tail: more feature lines beyond the mixture, all in one of its spellings (any weight)
+    Dt = rng.choice(lines)[0]
+    lines += [_mk_line(Dt, rng.randrange(2, 8)) for _ in range(rng.choice([0, 1, 2, 4, 8]))]
+    n = len(lines)
+    ck = rng.choice([rng.randrange(0, n_in + 1), rng.randrange(0, n + 2), n_in - 1, n_in])
+    gaps = [[] for _ in range(n + 1)]
+    for _ in range(rng.choice([0, 1, 1, 2, 3, 5])):
+        gaps[0].append(rng.choice(NONFEATURE))
+    for i in range(1, n + 1):
+        if rng.random() < 0.3:
+            gaps[i] = [rng.choice(NONFEATURE) for _ in range(rng.choice([1, 1, 2]))]
+    if not any(gaps):
+        gaps[rng.randrange(0, min(n, ck + 1) + 1)].append(rng.choice(NONFEATURE))
+    return {"kind": "mixture", "key": case["key"], "tie": False, "lines": lines, "checklines": max(0, ck), "gaps": gaps}
+
+
 def run(ctx):
     rng = ctx.rng
     pts = M.points()
@@ -655,6 +714,12 @@ def run(ctx):
         execute(ctx, case)
         ctx.case(("mix", case["lines"], case["checklines"]), True, sample=case if rng.random() < 0.01 else None,
                  cls="mixture key=%s tie=%s" % (case["key"], case["tie"]))
+    # (3a) mixtures with directive / comment / blank lines around the inspected feature lines, window shorter than the file
+    for _ in range(ctx.budget(2500, 60000)):
+        case = mix_gaps_case(rng)
+        execute(ctx, case)
+        ctx.case(("mix gaps", case["lines"], case["gaps"], case["checklines"]), True, sample=case if rng.random() < 0.01 else None,
+                 cls="mixture with non-feature lines key=%s" % case["key"])
     # (3b) Feature objects in another order than the file's
     for _ in range(ctx.budget(300, 30000)):
         D = rng.choice(pts)
